@@ -197,10 +197,17 @@ def fault_programs(rng, n):
         elif r < 0.5:
             mode = "template"                                                        # a .php file with a #! line (ParseFile)
             head = "#!/usr/bin/env php\n" + rng.choice(["<?php" + eol, "<?php "])
-        if mode == "template" and rng.random() < 0.4:
+        if mode == "template" and rng.random() < 0.6:
             # PHP alternative syntax before the fault, with line breaks inside the rewritten parts (fix 3e8473a)
             before += rng.choice(["if ($v0)\n\n:\n$alt = 1;\nelse\n:\n$alt = 2;\nendif;", "if ($v0): $alt = 1; endif;",
-                                  "while (false)\n:\n$alt = 1;\nendwhile;"]) + eol
+                                  "while (false)\n:\n$alt = 1;\nendwhile;",
+                                  # blocks closed inside their own <?php ... ?> island: with ';', with a trailing comment that ends in
+                                  # the end keyword, with blank lines before '?>', several blocks, HTML in between
+                                  "if ($v0): ?>\nA\n<?php endif; ?>\n<?php",
+                                  "if ($v0): ?>\nA\n<?php\n  endif; // closes the if, no else before this endif\n\n?>\n<p>x</p>\n<?php",
+                                  "foreach ([1] as $q): ?>\nB\n<?php endforeach;\n\n\n?>\n<?php",
+                                  "while (false): ?>\nC\n<?php endwhile; // endwhile\n?>\n<?php",
+                                  "if ($v0): ?>\nA\n<?php else: ?>\nB\n<?php endif;\n\n?>\n<ul>\n<?php foreach ([1, 2] as $q): ?>\n<li></li>\n<?php endforeach; // endforeach\n\n?>\n</ul>\n<?php"]) + eol
         twice = False
         # (not for faults inside string interpolation: on the unchanged tree an error raised there is not caught by an
         # enclosing try/catch at all - reported to the coordinator as a C05-class defect - so there is no "caught first time")
